@@ -23,7 +23,7 @@ LEVEL_TEXT = ("Random points of the quantified parameter box (N 1-60, theta_s (0
 LEVEL_NOTE = "Tolerances 1e-9*h on depth identities; N = 1 has no level pair: index validity is required only where the weight is non-zero. Trusts icontract (evaluation counts reported; zero => inconclusive)."
 RULE = ("case = chunk of random parameter points; every point calls s_stretch (rho,w), sdepth (rho,w) and z2s for ~40 depths per column; some chunks build a real "
         "ROMS.Grid from a generated file and from Vinfo. Non-trivial point: N >= 2 and stretched (theta_s > 0.5); distinct by rounded parameters.")
-MANDATORY = ["post_s_stretch", "post_sdepth", "post_z2s", "vtransform1", "vtransform2", "vstretching1", "vstretching2", "vstretching4",
+MANDATORY = ["bathymetry_not_c_contiguous", "z2s_calls_over_many_cells", "post_s_stretch", "post_sdepth", "post_z2s", "vtransform1", "vtransform2", "vstretching1", "vstretching2", "vstretching4",
              "depth_above_surface", "depth_below_bottom", "depth_on_level", "grid_from_file", "grid_from_vinfo", "N1", "vinfo_dictionary_reused", "grid_file_without_Vtransform", "grid_file_with_Vstretching"]
 ASSUMPTIONS = ["zeta = 0 (ladim ignores sea-surface elevation)", "Vtransform 1 only with hc <= min(h), as the property quantifies"]
 TIMEOUT = {"quick": 600, "thorough": 3000}
@@ -179,8 +179,13 @@ def run_case(case: dict[str, Any], wd: Path) -> dict[str, Any]:
             Cw = guarded("s_stretch(w)", p, R.s_stretch, N, p["theta_s"], p["theta_b"], stagger="w", Vstretching=p["Vstretching"])
             if Cr is None or Cw is None:
                 continue
-            zr = guarded("sdepth(rho)", p, R.sdepth, h, hc, Cr, stagger="rho", Vtransform=p["Vtransform"])
-            zw = guarded("sdepth(w)", p, R.sdepth, h, hc, Cw, stagger="w", Vtransform=p["Vtransform"])
+            hin = h
+            if hkind >= 0.3 and rng.random() < 0.4:
+                # the same bathymetry in another memory layout (Fortran order / a transposed view)
+                hin = np.asfortranarray(h) if rng.random() < 0.5 else np.ascontiguousarray(h.T).T
+                bump("bathymetry_not_c_contiguous")
+            zr = guarded("sdepth(rho)", p, R.sdepth, hin, hc, Cr, stagger="rho", Vtransform=p["Vtransform"])
+            zw = guarded("sdepth(w)", p, R.sdepth, hin, hc, Cw, stagger="w", Vtransform=p["Vtransform"])
             if zr is None or zw is None:
                 continue
             # interleaving: z_w[k] < z_r[k] < z_w[k+1]
@@ -196,6 +201,13 @@ def run_case(case: dict[str, Any], wd: Path) -> dict[str, Any]:
             bump("depth_on_level", int(np.sum(np.isin(-Z, zr[:, j, i]))))
             guarded("z2s", p, R.z2s, zr, X, Y, Z)
             cnt["depth_lookups"] = cnt.get("depth_lookups", 0) + len(Z)
+            # one call with particles in many different cells, neighbours sharing a row or a column index
+            cells = [(jj_, ii_) for jj_ in range(3) for ii_ in range(nx)] + [(jj_, ii_) for ii_ in range(nx) for jj_ in range(3)]
+            Xm = np.array([float(c_[1]) for c_ in cells]) + rng.uniform(-0.49, 0.49, size=len(cells))
+            Ym = np.array([float(c_[0]) for c_ in cells]) + rng.uniform(-0.49, 0.49, size=len(cells))
+            Zm = np.array([float(rng.uniform(-0.05, 1.05)) * float(h[c_]) for c_ in cells])
+            guarded("z2s (particles in many cells)", p, R.z2s, zr, Xm, Ym, Zm)
+            bump("z2s_calls_over_many_cells")
             if N >= 2 and p["theta_s"] > 0.5:
                 keys.add((N, round(p["theta_s"], 3), round(p["theta_b"], 3), p["Vstretching"], p["Vtransform"], round(hc, 3)))
             if len(V) > 4:
